@@ -3,6 +3,13 @@
 import json, sys
 pid, wt = sys.argv[1], sys.argv[2]
 n = int(sys.argv[3]) if len(sys.argv) > 3 else 2
+first = int(sys.argv[4]) if len(sys.argv) > 4 else 1     # number of the first change (later waves continue the numbering)
+import glob, os
+known = []
+for d in sorted(glob.glob('/verif/seeded/*')):
+    try: m = json.load(open(os.path.join(d, 'meta.json')))
+    except Exception: continue
+    known.append("- [%s] %s" % (m.get('property'), (m.get('summary') or '').replace('\n', ' ')[:260]))
 p = [json.loads(l) for l in open('/verif/properties.jsonl') if json.loads(l)['id'] == pid][0]
 print(f"""You are given a scratch git worktree of the Go library avos-io/goat (gRPC over any reliable transport; every gRPC call is wrapped in a protobuf Rpc envelope with stream ids, headers, trailers and resets) at {wt}. Work ONLY inside {wt} (never touch /repo or /verif, never read /verif). No network. Per shell: export GOFLAGS=-mod=mod GOPROXY=off GOSUMDB=off.
 
@@ -15,8 +22,11 @@ Where it lives: files {', '.join(p['anchors'].get('files', []))}; mechanisms: {'
 
 YOUR TASK: write {n} DIFFERENT realistic changes to the library's non-test source (the kind of change a developer could plausibly make: a refactoring, an optimisation, a 'simplification', a tidy-up, a subtle misreading of an API) each of which BREAKS this property while (a) the code still compiles (`go build ./...` and also `go build -tags verif ./...`), (b) the existing test suite still passes: `go test -mod=mod -vet=off -count=1 ./...` three times in a row (the unchanged tree has one slightly flaky test, TestClientResetStream; ignore failures of that one test only if it also fails at a similar rate without your change). Prefer changes that need something SPECIFIC to manifest - a particular interleaving, a crash or fault at a particular point, a multi-step sequence of operations, an unusual input, or two cooperating sites that each look fine alone - NOT changes that ordinary use would expose at once. The {n} changes should break the property in different ways / at different places.
 
-For each change i = 1..{n} produce in {wt}/_out/{pid}_i/ :
+For each change i = {first}..{first+n-1} produce in {wt}/_out/{pid}_i/ :
   patch.diff  - `git diff` of the change against the worktree's HEAD (only non-test library files),
   a demonstration: a Go test file (name it zz_demo_i_test.go, package goat or goat_test or the internal package it needs, placed in _out/{pid}_i/ and saying in a comment in which directory of the repo it must be copied to run) or a small program, which FAILS with the change applied and PASSES without it (deterministically or with high probability; say which),
   meta.json   - {{"property": "{pid}", "summary": what the change is and why it looks innocent, "needs": what it needs in order to manifest, "demo_dir": repo-relative directory where the demo test goes, "demo_run": the exact command, "suite_runs_passed": n, "demo_fails_with_change": true/false, "demo_passes_without": true/false}}.
-Verify everything yourself: apply the patch, run the suite 3 times, run the demo with and without the patch. Leave the worktree with the patches NOT applied (git checkout -- . ; demos only under _out/). Your final message: one paragraph per change (what, why it breaks the property, what it needs to manifest, what you verified).""")
+Never use `git stash` (the stash is shared between worktrees); save your diff to a file and use `git apply` / `git checkout -- .`. Verify everything yourself: apply the patch, run the suite 3 times, run the demo with and without the patch. Leave the worktree with the patches NOT applied (git checkout -- . ; demos only under _out/). Changes that were ALREADY written by others (do not repeat any of them, nor a trivial variant; yours must break the property by a different mechanism or at a different site):
+{chr(10).join(known)}
+
+Your final message: one paragraph per change (what, why it breaks the property, what it needs to manifest, what you verified).""")
